@@ -335,3 +335,57 @@ contract(
     trace={"Path.is_file": Bool, "pdb2pqr.io:test_dat_file": Raises(Str, "FileNotFoundError")},
     name="check_files", native=False,
 )
+
+
+# ====================================================================================================== pKa rows -> dictionary
+# The titration decisions are taken on the PROPKA rows: side-chain groups (group label starts with the residue name) keyed
+# "NAME NUMBER CHAIN" with that row's own pKa; rows of other groups (ligand atoms, coupled groups) are not titrated.
+# Terminal groups are labelled by GROUP ("N+    1 A", "C-   99 B") and carry their residue's name; apply_pka_values looks
+# them up by exactly that label (proved in titration.py) - so they have to arrive under it (contract .termini below).
+def PROW(res, num, ch, pka, label):
+    return DictOf(("res_name", Const(res)), ("res_num", Const(num)), ("chain_id", Const(ch)), ("pKa", Const(pka)),
+                  ("group_label", Const(label)))
+
+
+PKA_TRACE = dict(TRACE)
+PKA_TRACE["pdb2pqr.main:run_propka"] = TupleOf(Items(PROW("ASP", 12, "A", 3.5, "ASP  12 A"), PROW("SER", 1, "A", 8.0, "N+    1 A"),
+                                                     PROW("LYS", 7, "B", 10.5, "LYS   7 B"), PROW("ASP", 40, "A", 4.5, "XXX  40 A"),
+                                                     PROW("LEU", 99, "B", 3.25, "C-   99 B")), Str)
+
+contract(
+    "pdb2pqr.main:non_trivial", ["C06"],
+    params={"args": ARGS(assign_only=Const(False), pka_method=Const("propka")), "biomolecule": BIOMOL(),
+            "ligand": Const(None), "definition": Obj("Definition"), "is_cif": Const(False)},
+    requires=[],
+    ensures=[
+        "len(calls_of('apply_pka_values')) == 1",
+        "calls_of('apply_pka_values')[0].args['pkadic']['ASP 12 A'] == Fraction(7, 2)",
+        "calls_of('apply_pka_values')[0].args['pkadic']['LYS 7 B'] == Fraction(21, 2)",
+        "'ASP 40 A' not in calls_of('apply_pka_values')[0].args['pkadic']",
+        # a terminal group's pKa is never filed under its residue's side chain
+        "'SER 1 A' not in calls_of('apply_pka_values')[0].args['pkadic'] and 'LEU 99 B' not in calls_of('apply_pka_values')[0].args['pkadic']",
+        # hydrogens are stripped before PROPKA sees the structure, and it sees it before the decisions are applied
+        "before_all('remove_hydrogens', ['run_propka']) and before_all('run_propka', ['apply_pka_values'])",
+    ],
+    raises={"ValueError": "True"},
+    trace=PKA_TRACE,
+    name="non_trivial.pka_rows",
+    native=False,
+    budget=5000,
+)
+
+contract(
+    "pdb2pqr.main:non_trivial", ["C06"],
+    params={"args": ARGS(assign_only=Const(False), pka_method=Const("propka")), "biomolecule": BIOMOL(),
+            "ligand": Const(None), "definition": Obj("Definition"), "is_cif": Const(False)},
+    requires=[],
+    ensures=[
+        # the N- and C-terminal groups' pKa values reach the decision function under the key it looks up
+        "'N+    1 A' in calls_of('apply_pka_values')[0].args['pkadic'] and 'C-   99 B' in calls_of('apply_pka_values')[0].args['pkadic']",
+    ],
+    raises={"ValueError": "True"},
+    trace=PKA_TRACE,
+    name="non_trivial.pka_rows.termini",
+    native=False,
+    budget=5000,
+)
